@@ -228,7 +228,7 @@ def run(prop, sub, tier, seed, rule, required, assumptions, exhaustive_note):
     else:
         absorb("native", out, vc)
         native_nontrivial = out["nontrivial"]
-    phases["native"]["wall_s"] = round(time.time() - t0, 1)
+    phases.setdefault("native", {})["wall_s"] = round(time.time() - t0, 1)
 
     # ---- AddressSanitizer (mid-size workload)
     t0 = time.time()
@@ -236,6 +236,8 @@ def run(prop, sub, tier, seed, rule, required, assumptions, exhaustive_note):
         asan = build.build_vc_asan()
         env = dict(os.environ)
         env["ASAN_OPTIONS"] = "halt_on_error=1:abort_on_error=1:allocator_may_return_null=1:detect_leaks=1"
+        if any(v["signature"].startswith("cost-governed-by-announced-size") for v in run_.violations):
+            env["VC_COST_BROKEN"] = "1"    # on record already; see c11.rs COST_BROKEN
         p = subprocess.run([asan, sub, "--tier", tier, "--seed", str(seed), "--threads", str(core.NPROC),
                             "--scale", "sanitizer"], stdout=subprocess.PIPE, stderr=subprocess.PIPE, env=env)
         out = _parse_outcome(p.stdout)
